@@ -221,6 +221,38 @@ def check_c19(seed, tier):
         finally:
             HOLDER["s"] = None
             clean()
+    # copies of the lazily read array must address the SAME bytes as the original: pickle / deepcopy / copy of `Array` objects
+    # with synthetic byte ranges — small files, and files beyond 2**31 / 2**32 / 2**40 bytes (real scenes exceed 4 GiB)
+    import copy as _copy
+    import fsspec
+    from ceos_alos2.array import Array
+    fs = fsspec.filesystem("memory")
+    for trial in range(24 if tier == "quick" else 300):
+        n = rng.randint(1, 12)
+        m = rng.randint(1, 5)
+        tc = rng.choice(["IU2", "C*8"])
+        bpp = 2 if tc == "IU2" else 8
+        P = 192 if tc == "IU2" else 544
+        L = P + m * bpp + rng.choice([0, 0, 7])
+        base = rng.choice([720, 720, 2**31 - 5 * L, 2**32 - 3 * L, 2**32 + 11, 2**40 + 1, 3 * 2**32 - L])
+        ranges = [(base + i * L + P, base + i * L + P + m * bpp) for i in range(n)]
+        arr = Array(fs=fs, url="IMG-x", byte_ranges=ranges, shape=(n, m), dtype="uint16" if tc == "IU2" else "complex64",
+                    type_code=tc, records_per_chunk=rng.choice([1, 2, 3, n, 1024]))
+        evals += 1
+        distinct.add(("array-copy", n, m, tc, base))
+        for how, cp in (("pickle", lambda a: pickle.loads(pickle.dumps(a))), ("deepcopy", _copy.deepcopy), ("copy", _copy.copy)):
+            try:
+                c = cp(arr)
+                same = (list(map(tuple, c.byte_ranges)) == ranges and tuple(c.shape) == (n, m) and c.type_code == tc
+                        and c.records_per_chunk == arr.records_per_chunk and str(c.dtype) == str(arr.dtype) and c.url == arr.url
+                        and {int(k_): (int(o["offset"]), int(o["size"])) for k_, o in dict(c.chunk_offsets).items()}
+                        == {int(k_): (int(o["offset"]), int(o["size"])) for k_, o in dict(arr.chunk_offsets).items()})
+                if not same:
+                    viol.append({"case": {"lines": n, "pixels": m, "type_code": tc, "first_record_at": base, "copy_by": how},
+                                 "what": f"a {how} copy of the image array addresses other bytes than the original (byte ranges / chunk offsets differ)"})
+            except Exception as e:  # noqa: BLE001
+                viol.append({"case": {"lines": n, "pixels": m, "type_code": tc, "first_record_at": base, "copy_by": how},
+                             "what": f"{how} copy of the image array raised {type(e).__name__}: {e}"[:200]})
     return {"name": "oracle:C19 interleavings", "evaluations": evals, "distinct": len(distinct), "violations": viol, "samples": samples}
 
 
